@@ -158,10 +158,12 @@ def finish(run, seed=0, out_dir=None, quiet=False):
         for rid in run.order:
             r = run.rules[rid]
             print("  %-10s %4d instances (floor %d)  %s" % (rid, r.instances, r.floor, r.text[:100]))
-    if floor_errors:
+    if floor_errors and not new:
         for e in floor_errors:
             print("ANALYSIS-ERROR property=%s %s" % (run.prop, e))
         return 2
+    for e in floor_errors:
+        print("NOTE property=%s %s (violations below take precedence)" % (run.prop, e))
     for f in old:
         print("KNOWN-FINDING: property=%s %s %s [%s] %s" % (run.prop, f.rule, f.key, f.where, f.what))
     code = 0
